@@ -795,7 +795,9 @@ func (r *reader) read(src []byte) {
 			}
 		}
 		if r.one && 0 < len(r.code) {
-			if b == ')' {
+			// A list, string or |symbol| ends with the byte just read,
+			// anything else ended with the byte before it.
+			if b == ')' || ((b == '"' || b == '|') && r.mode == valueMode) {
 				r.pos++
 			}
 			return
